@@ -97,7 +97,8 @@ def small_heaps(nl, nr, full, rng, limit):
         allv = None
         it = None
     if full:
-        for conts, rt, fm, rm in it:
+        for tup in it:
+            conts, (rt, fm, rm) = tup[:nl + nr], tup[nl + nr:]
             out.append(mk_small(conts, rt, fm, rm, nl, nr))
     else:
         for _ in range(limit):
